@@ -303,3 +303,14 @@ pub fn basic_readback<N: Nondet, const MULTIPLICATIVE: bool>(n: &mut N) {
     pa!("C15", d.get_data_len() == 5 && d.get_instruction_len() == 3 && d.get_jump_table_len() == 3);
     std::mem::forget(d);
 }
+
+/// recorded finding witness (C07): casting a Custom value to a char list on SimpleGarnishData reaches `todo!()`
+pub fn simple_cast_custom_kf<N: Nondet>(_n: &mut N) {
+    use garnish_lang_simple_data::NoCustom;
+    let mut d = SimpleGarnishData::new();
+    let c = d.add_custom(NoCustom {}).unwrap();
+    let r = ok(d.add_char_list_from(c));
+    // any answer (a value or an error) is fine; a panic is not
+    let _ = r;
+    std::mem::forget(d);
+}
